@@ -107,4 +107,50 @@ Section BlockAlg.
     - rewrite (fwd_add2 C _ (fwd E x) (fwd F x2) (i - ran A) WC (S1 C HCE) ltac:(lia)).
       rewrite (fwd_add2 D _ (fwd G x) (fwd H x2) (i - ran A) WD (S2 C D HCE HDG) ltac:(lia)). ring.
   Qed.
+  (* ---- columns of any height: [A1; A2; ...; Z] C = [A1 C; A2 C; ...; Z C] ---- *)
+  Fixpoint vstack_list (l : list linop) (z : linop) : linop :=
+    match l with nil => z | cons A r => vstack A (vstack_list r z) end.
+
+  Lemma opeq_refl (A : linop) : opeq A A.
+  Proof. unfold opeq. repeat split; reflexivity. Qed.
+  Lemma opeq_trans (A B C : linop) : opeq A B -> opeq B C -> opeq A C.
+  Proof.
+    intros (d1 & r1 & f1 & a1) (d2 & r2 & f2 & a2). unfold opeq. repeat split; try congruence.
+    - intros x i Hi. rewrite (f1 x i Hi). apply f2. rewrite <- r1. exact Hi.
+    - intros y j Hj. rewrite (a1 y j Hj). apply a2. rewrite <- d1. exact Hj.
+  Qed.
+  Lemma vstack_opeq_tail (A X Y : linop) : opeq X Y -> dom A = dom X -> opeq (vstack A X) (vstack A Y).
+  Proof.
+    intros (d & r & f & a) HAX. unfold opeq. cbn [vstack dom ran fwd adj]. repeat split; try congruence.
+    - intros x i Hi. destruct (Nat.ltb_spec i (ran A)); [reflexivity|]. apply f. lia.
+    - intros y j Hj. f_equal. apply a. rewrite <- HAX. exact Hj.
+  Qed.
+  Lemma vstack_list_dom (l : list linop) (z : linop) : dom (vstack_list l z) = match l with nil => dom z | cons A _ => dom A end.
+  Proof. destruct l; reflexivity. Qed.
+
+  Lemma comp_vstack_list (l : list linop) (z C : linop) : wf C ->
+    opeq (comp (vstack_list l z) C) (vstack_list (map (fun A => comp A C) l) (comp z C)).
+  Proof.
+    intros WC. induction l as [|A r IH]; cbn [vstack_list map].
+    - apply opeq_refl.
+    - eapply opeq_trans; [apply comp_vstack_left; exact WC|].
+      apply vstack_opeq_tail; [exact IH|]. cbn [comp dom]. reflexivity.
+  Qed.
+  (* ---- rows of any width: A [B1, B2, ..., Z] = [A B1, A B2, ..., A Z] ---- *)
+  Fixpoint hstack_list (l : list linop) (z : linop) : linop :=
+    match l with nil => z | cons A r => hstack A (hstack_list r z) end.
+  Lemma hstack_opeq_tail (A X Y : linop) : opeq X Y -> ran A = ran X -> opeq (hstack A X) (hstack A Y).
+  Proof.
+    intros (d & r & f & a) HAX. unfold opeq. cbn [hstack dom ran fwd adj]. repeat split; try congruence.
+    - intros x i Hi. f_equal. apply f. rewrite <- HAX. exact Hi.
+    - intros y j Hj. destruct (Nat.ltb_spec j (dom A)); [reflexivity|]. apply a. lia.
+  Qed.
+  Lemma comp_hstack_list (A : linop) (l : list linop) (z : linop) : wf A ->
+    opeq (comp A (hstack_list l z)) (hstack_list (map (fun B => comp A B) l) (comp A z)).
+  Proof.
+    intros WA. induction l as [|B r IH]; cbn [hstack_list map].
+    - apply opeq_refl.
+    - eapply opeq_trans; [apply comp_hstack_right; exact WA|].
+      apply hstack_opeq_tail; [exact IH|]. cbn [comp ran]. reflexivity.
+  Qed.
 End BlockAlg.
